@@ -367,9 +367,9 @@ impl Check for C07 {
             },
             assumptions: vec![
                 "the thread-pool dimension uses the rayon stand-in in its default schedule (schedules are C09's)".into(),
-                "render crashes are deferred to C11".into(),
+                "a render call that panics (or kills the process) instead of returning an image is reported here: C11 enumerates evaluator entry points, not the renderer".into(),
             ],
-            crash_policy: CrashPolicy::Deferred,
+            crash_policy: CrashPolicy::Violation,
             vacuity: vec![("columns_checked", 50000), ("normals_checked", 5000)],
             transitions_counter: "evals",
             nontrivial_counter: "nontrivial",
